@@ -7,3 +7,4 @@ import Dtr.Props.C20
 #print axioms Dtr.C20_radix_case
 #print axioms Dtr.C20_parse_factors
 #print axioms Dtr.C20_bind_ignores_spans
+#print axioms Dtr.C20_blank_line_insert
